@@ -38,7 +38,11 @@ pub enum Op {
     Scopes,
     Vars(u8),
     Evaluate(String),
+    /// setBreakpoints for main.asm
     SetBreakpoints(Vec<(usize, Option<usize>)>),
+    /// setBreakpoints for one source of a two-file program (0 = main.asm, 1 = lib.asm); the protocol
+    /// replaces the breakpoints of THAT source only
+    SetBreakpointsIn(u8, Vec<(usize, Option<usize>)>),
     Threads,
     /// setVariable(name, value text) - only sent while the client believes the machine is halted
     SetVariable(String, String),
@@ -61,6 +65,7 @@ impl Op {
             Op::Vars(n) => json!({"op": "variables", "ref": n}),
             Op::Evaluate(e) => json!({"op": "evaluate", "expr": e}),
             Op::SetBreakpoints(b) => json!({"op": "setBreakpoints", "lines": b.iter().map(|(l, c)| json!([l, c])).collect::<Vec<_>>()}),
+            Op::SetBreakpointsIn(f, b) => json!({"op": "setBreakpointsIn", "file": f, "lines": b.iter().map(|(l, c)| json!([l, c])).collect::<Vec<_>>()}),
             Op::Threads => json!({"op": "threads"}),
             Op::SetVariable(n, t) => json!({"op": "setVariable", "name": n, "value": t}),
             Op::Pipelined(c) => json!({"op": "pipelined", "cmds": c}),
@@ -86,6 +91,14 @@ impl Op {
                     .map(|p| Some((p.get(0)?.as_u64()? as usize, p.get(1).and_then(|c| c.as_u64()).map(|c| c as usize))))
                     .collect::<Option<Vec<_>>>()?,
             ),
+            "setBreakpointsIn" => Op::SetBreakpointsIn(
+                v.get("file")?.as_u64()? as u8,
+                v.get("lines")?
+                    .as_array()?
+                    .iter()
+                    .map(|p| Some((p.get(0)?.as_u64()? as usize, p.get(1).and_then(|c| c.as_u64()).map(|c| c as usize))))
+                    .collect::<Option<Vec<_>>>()?,
+            ),
             "threads" => Op::Threads,
             "pipelined" => Op::Pipelined(v.get("cmds")?.as_array()?.iter().map(|c| c.as_str().map(|x| x.to_string())).collect::<Option<Vec<_>>>()?),
             "setVariable" => Op::SetVariable(v.get("name")?.as_str()?.to_string(), v.get("value")?.as_str()?.to_string()),
@@ -94,9 +107,14 @@ impl Op {
     }
 }
 
+/// breakpoints are identified by (line + LIB_BASE * file, column): lines >= LIB_BASE lie in lib.asm
+pub const LIB_BASE: usize = 10_000;
+
 #[derive(Clone, Debug)]
 pub struct Case {
     pub program: String,
+    /// second source file (lib.asm) holding the subroutines, imported by main.asm
+    pub lib: Option<String>,
     pub initial_bps: Vec<(usize, Option<usize>)>,
     pub ops: Vec<Op>,
     pub lines_start_at_1: bool,
@@ -116,7 +134,7 @@ pub struct Case {
 impl Case {
     pub fn to_json(&self) -> Value {
         json!({
-            "engine": "threadsim/C19", "program": self.program,
+            "engine": "threadsim/C19", "program": self.program, "lib": self.lib,
             "initial_breakpoints": self.initial_bps.iter().map(|(l, c)| json!([l, c])).collect::<Vec<_>>(),
             "ops": self.ops.iter().map(|o| o.to_json()).collect::<Vec<_>>(),
             "lines_start_at_1": self.lines_start_at_1,
@@ -127,6 +145,7 @@ impl Case {
     pub fn from_json(v: &Value) -> Option<Case> {
         Some(Case {
             program: v.get("program")?.as_str()?.to_string(),
+            lib: v.get("lib").and_then(|l| l.as_str()).map(|l| l.to_string()),
             initial_bps: v
                 .get("initial_breakpoints")?
                 .as_array()?
@@ -154,7 +173,7 @@ const STRAIGHT: &[&str] = &[
 /// One `.test` body from a small grammar over the subset the property names:
 /// straight-line code, counted loops, subroutines (nesting <= 2), optional
 /// macro / .loop expansion so several addresses map to one line, asserts/traces.
-pub fn gen_program(rng: &mut Rng) -> String {
+pub fn gen_program(rng: &mut Rng) -> (String, Option<String>) {
     let mut top = String::new();
     let use_macro = rng.chance(1, 3);
     if use_macro {
@@ -208,36 +227,57 @@ pub fn gen_program(rng: &mut Rng) -> String {
         body.push_str("    jsr sub0\n");
     }
     emit_block(rng, &mut body, 0, n_subs, true);
-    // one program in six never ends: it waits in a one-instruction loop, as programs for these machines do
-    match rng.below(12) {
+    // one program in eight never ends: it waits in a one-instruction loop, as programs for these machines do
+    match rng.below(16) {
         0 => body.push_str("spin:\n    jmp spin\n"),
         1 => body.push_str("    lda #1\nspin:\n    bne spin\n"),
         _ => body.push_str("    brk\n"),
     }
+    let mut subs = String::new();
     for s in 0..n_subs {
-        body.push_str(&format!("sub{}:\n", s));
+        subs.push_str(&format!("sub{}:\n", s));
         let mut sub = String::new();
         // sub1 may call sub0 (nesting <= 2), sub0 calls nothing
         emit_block(rng, &mut sub, 1, if s > 0 { 1 } else { 0 }, s > 0);
-        body.push_str(&sub);
-        body.push_str("    rts\n");
+        subs.push_str(&sub);
+        subs.push_str("    rts\n");
     }
-    format!("{}.test \"t\" {{\n{}}}\n", top, body)
+    // one program with subroutines in three keeps them in a file of its own
+    if n_subs > 0 && !use_macro && rng.chance(1, 3) {
+        body.push_str("    .import * from \"lib.asm\"\n");
+        return (format!("{}.test \"t\" {{\n{}}}\n", top, body), Some(subs));
+    }
+    body.push_str(&subs);
+    (format!("{}.test \"t\" {{\n{}}}\n", top, body), None)
 }
 
 pub fn gen_case(seed: u64, k: u64) -> Case {
     let mut r = Rng::new(rng::derive(seed, "c19.case", k));
-    let program = gen_program(&mut r);
+    let (program, lib) = gen_program(&mut r);
+    let code_lines_of = |text: &str| -> Vec<usize> {
+        text.lines()
+            .enumerate()
+            .filter(|(_, l)| {
+                let t = l.trim();
+                l.starts_with("    ") && !t.starts_with('.') && !t.is_empty()
+            })
+            .map(|(i, _)| i)
+            .collect()
+    };
     let n_lines = program.lines().count();
-    let code_lines: Vec<usize> = program
-        .lines()
-        .enumerate()
-        .filter(|(_, l)| {
-            let t = l.trim();
-            l.starts_with("    ") && !t.starts_with('.') && !t.is_empty()
-        })
-        .map(|(i, _)| i)
-        .collect();
+    let code_lines: Vec<usize> = code_lines_of(&program);
+    let lib_lines: Vec<usize> = lib.as_deref().map(code_lines_of).unwrap_or_default();
+    let pick_lib_bps = |r: &mut Rng| -> Vec<(usize, Option<usize>)> {
+        let mut v: Vec<(usize, Option<usize>)> = vec![];
+        for _ in 0..r.below(3) {
+            if let Some(line) = if lib_lines.is_empty() { None } else { Some(*r.pick(&lib_lines)) } {
+                if !v.iter().any(|(l, _)| *l == line) {
+                    v.push((line, None));
+                }
+            }
+        }
+        v
+    };
     let pick_bps = |r: &mut Rng| -> Vec<(usize, Option<usize>)> {
         let n = r.below(4);
         let mut v = vec![];
@@ -282,6 +322,13 @@ pub fn gen_case(seed: u64, k: u64) -> Case {
             7 => Op::Scopes,
             8 => Op::Vars(*r.pick(&[1u8, 1, 2, 3])),
             9 => Op::Evaluate(r.pick_str(&["cpu.a", "cpu.x", "cpu.y", "cpu.a + cpu.x", "cpu.flags.zero", "cpu.flags.carry"]).to_string()),
+            10 if lib.is_some() => {
+                if r.chance(1, 2) {
+                    Op::SetBreakpointsIn(0, pick_bps(&mut r))
+                } else {
+                    Op::SetBreakpointsIn(1, pick_lib_bps(&mut r))
+                }
+            }
             10 => Op::SetBreakpoints(pick_bps(&mut r)),
             11 => Op::Threads,
             13 => {
@@ -305,6 +352,7 @@ pub fn gen_case(seed: u64, k: u64) -> Case {
     let omit_start_flags = r.chance(1, 5);
     Case {
         program,
+        lib,
         initial_bps,
         ops,
         lines_start_at_1: omit_start_flags || r.chance(1, 2),
@@ -375,13 +423,25 @@ pub const MAX_TRACE: usize = 3000;
 /// entries a reference run is extended to at most
 pub const HARD_TRACE_CAP: usize = 200_000;
 
-pub fn build_reference(program: &str, path: &str) -> Reference {
-    build_reference_with(program, path, &[])
+pub fn build_reference(program: &str, lib: Option<&str>, path: &str) -> Reference {
+    build_reference_with(program, lib, path, &[])
+}
+
+fn lib_path() -> String {
+    format!("{}/lib.asm", WS)
+}
+
+fn sources(program: &str, lib: Option<&str>, path: &str) -> InMemoryParsingSource {
+    let src = InMemoryParsingSource::new().add(path, program);
+    match lib {
+        Some(l) => src.add(&lib_path(), l),
+        None => src,
+    }
 }
 
 /// The uninterrupted run, with the client's register writes applied at the positions at which
 /// the (halted) machine received them.
-pub fn build_reference_with(program: &str, path: &str, overrides: &[(u64, String, u8)]) -> Reference {
+pub fn build_reference_with(program: &str, lib: Option<&str>, path: &str, overrides: &[(u64, String, u8)]) -> Reference {
     let mut reference = Reference {
         overrides: overrides.to_vec(),
         trace: vec![],
@@ -394,7 +454,7 @@ pub fn build_reference_with(program: &str, path: &str, overrides: &[(u64, String
         bp_ranges: BTreeMap::new(),
         n_lines: program.lines().count(),
     };
-    let src = InMemoryParsingSource::new().add(path, program).into();
+    let src = sources(program, lib, path).into();
     match TestRunner::new(src, Path::new(path), &"t".into()) {
         Ok(r) => reference.runner = Some(r),
         Err(e) => {
@@ -495,17 +555,19 @@ impl Reference {
         f
     }
 
-    pub fn ranges_for(&mut self, program: &str, path: &str, line: usize, col: Option<usize>) -> Vec<Range<usize>> {
+    /// address ranges of a breakpoint key (line + LIB_BASE * file, column)
+    pub fn ranges_for(&mut self, program: &str, lib: Option<&str>, path: &str, line: usize, col: Option<usize>) -> Vec<Range<usize>> {
         if let Some(r) = self.bp_ranges.get(&(line, col)) {
             return r.clone();
         }
+        let (file_path, file_line) = if line >= LIB_BASE { (lib_path(), line - LIB_BASE) } else { (path.to_string(), line) };
         // recompute through a fresh codegen of the same program (cheap, deterministic)
-        let src = InMemoryParsingSource::new().add(path, program).into();
+        let src = sources(program, lib, path).into();
         let v = match TestRunner::new(src, Path::new(path), &"t".into()) {
             Ok(runner) => {
                 let cg = runner.codegen();
                 let cg = cg.lock().unwrap();
-                let r: Vec<Range<usize>> = cg.source_map().line_col_to_offsets(&cg.tree().code_map, path, line, col).into_iter().map(|o| o.pc.clone()).collect();
+                let r: Vec<Range<usize>> = cg.source_map().line_col_to_offsets(&cg.tree().code_map, &file_path, file_line, col).into_iter().map(|o| o.pc.clone()).collect();
                 r
             }
             Err(_) => vec![],
@@ -619,9 +681,10 @@ impl<'a> Session<'a> {
 
     fn in_ranges(&mut self, pc: u16, bps: &[(usize, Option<usize>)]) -> bool {
         let program = self.case.program.clone();
+        let lib = self.case.lib.clone();
         let path = self.path.clone();
         for (l, c) in bps {
-            for r in self.reference.ranges_for(&program, &path, *l, *c) {
+            for r in self.reference.ranges_for(&program, lib.as_deref(), &path, *l, *c) {
                 if r.start <= pc as usize && (pc as usize) < r.end {
                     return true;
                 }
@@ -1041,7 +1104,8 @@ impl<'a> Session<'a> {
                     ov.push((cyc, name.clone(), value));
                     let program = self.case.program.clone();
                     let path = self.path.clone();
-                    let mut nr = build_reference_with(&program, &path, &ov);
+                    let lib = self.case.lib.clone();
+                    let mut nr = build_reference_with(&program, lib.as_deref(), &path, &ov);
                     if !nr.ok || nr.index_of_cycles(cyc) != Some(i) {
                         // e.g. the modified run does not end within the trace budget: nothing to compare with any more
                         self.v.notes.push(format!("reference after setVariable unavailable: {}", nr.error));
@@ -1054,16 +1118,27 @@ impl<'a> Session<'a> {
                     self.query_registers(Some(i))?;
                 }
             }
-            (Op::SetBreakpoints(bps), view) => {
-                let lines: Vec<Value> = bps
+            (Op::SetBreakpoints(_), view) | (Op::SetBreakpointsIn(_, _), view) => {
+                let (file, plain) = match op {
+                    Op::SetBreakpointsIn(f, b) => (*f as usize, b.clone()),
+                    Op::SetBreakpoints(b) => (0usize, b.clone()),
+                    _ => unreachable!(),
+                };
+                let source_path = if file == 0 { self.path.clone() } else { lib_path() };
+                // keys of this source's breakpoints; the other source's breakpoints stay as they are
+                let keys: Vec<(usize, Option<usize>)> = plain.iter().map(|(l, c)| (l + LIB_BASE * file, *c)).collect();
+                let lines: Vec<Value> = plain
                     .iter()
                     .map(|(l, c)| match c {
                         Some(c) => json!({"line": self.line_out(*l), "column": if self.case.lines_start_at_1 { c + 1 } else { *c }}),
                         None => json!({"line": self.line_out(*l)}),
                     })
                     .collect();
-                let r = self.dap.request("setBreakpoints", json!({"source": {"path": self.path}, "breakpoints": lines}))?;
+                let r = self.dap.request("setBreakpoints", json!({"source": {"path": source_path}, "breakpoints": lines}))?;
                 if r.get("success").and_then(|s| s.as_bool()) == Some(true) {
+                    let in_this_file = |b: &(usize, Option<usize>)| (b.0 >= LIB_BASE) == (file == 1);
+                    let mut bps: Vec<(usize, Option<usize>)> = self.active_bps.iter().filter(|b| !in_this_file(b)).cloned().collect();
+                    bps.extend(keys.iter().cloned());
                     self.active_bps = bps.clone();
                     if view == View::Running {
                         self.v.bp_changes_while_running += 1;
@@ -1074,7 +1149,7 @@ impl<'a> Session<'a> {
                         // (the moment of their removal relative to the machine's position is unknown)
                         self.run_bps_added.retain(|(b, _)| bps.contains(b));
                         let since = self.query_registers(None)?;
-                        for b in bps {
+                        for b in &bps {
                             if !self.run_bps_throughout.contains(b) && !self.run_bps_added.iter().any(|(x, _)| x == b) {
                                 self.run_bps_added.push((*b, since));
                             }
@@ -1093,7 +1168,7 @@ impl<'a> Session<'a> {
 
 pub fn scenario(case: &Case, slot: &Arc<StdMutex<Option<Verdict>>>) {
     let path = format!("{}/main.asm", WS);
-    let reference = build_reference(&case.program, &path);
+    let reference = build_reference(&case.program, case.lib.as_deref(), &path);
     let mut verdict = Verdict { trace_len: reference.trace.len(), ..Default::default() };
     if !reference.ok {
         verdict.notes.push(format!("reference run failed: {}", reference.error));
@@ -1236,6 +1311,9 @@ fn sim_disk(case: &Case) -> SimDisk {
     d.add_dir(WS);
     d.add_file(format!("{}/mos.toml", WS), b"[build]\nentry = \"main.asm\"\n".to_vec());
     d.add_file(format!("{}/main.asm", WS), case.program.as_bytes().to_vec());
+    if let Some(lib) = &case.lib {
+        d.add_file(format!("{}/lib.asm", WS), lib.as_bytes().to_vec());
+    }
     d
 }
 
